@@ -86,6 +86,26 @@ Theorem C12_found_empty : forall line, pat_search REps line = true.
 Proof. exact re_search_eps. Qed.
 Print Assumptions C12_found_empty.
 
+(* end to end, in the vocabulary of the property: a region is handed to block type k iff k is the first declared type whose
+   begin pattern denotes some stretch of the region's first line (first byte window in binary storage) *)
+Definition denotes (p : pattern) (line : str) : Prop := exists i j, i <= List.length line /\ M line p i j.
+
+Theorem C12_dispatch_denotation : forall sto bs line k,
+  block_dispatch true sto bs line = Some k <->
+  exists b, nth_error bs k = Some b /\ denotes (b_begin b) line /\
+            forall j c, j < k -> nth_error bs j = Some c -> ~ denotes (b_begin c) line.
+Proof.
+  intros sto bs line k. rewrite C12_first_match. unfold denotes. split.
+  - intros [k' [b [Hk [Hb [Hm Hearlier]]]]]. cbn in Hk. subst k'. exists b. split; [exact Hb|]. split.
+    + apply C12_found. exact Hm.
+    + intros j c Hj Hc Hd. apply C12_found in Hd. rewrite (Hearlier j c Hj Hc) in Hd. discriminate.
+  - intros [b [Hb [Hd Hearlier]]]. exists k, b. split; [reflexivity|]. split; [exact Hb|]. split.
+    + apply C12_found. exact Hd.
+    + intros j c Hj Hc. destruct (pat_search (b_begin c) line) eqn:E; [|reflexivity].
+      exfalso. apply (Hearlier j c Hj Hc). apply C12_found. exact E.
+Qed.
+Print Assumptions C12_dispatch_denotation.
+
 Example C12_example_regex :
   let r := RSeq RBol (RSeq (RStar (RChr (CSpace false false))) (RSeq (re_lit (s2l "DADOS"%string)) (re_plus (RChr (CDigit false false))))) in
   pat_search r (s2l "  DADOS42 x"%string) = true /\ pat_search r (s2l "x DADOS42"%string) = false.
